@@ -10,7 +10,7 @@ import (
 func init() {
 	eng.Register(&eng.Check{
 		ID: "C05",
-		Rule: "E1 bounded product over configurations: selector paths of depth 1-4 with the missing step at leaf / intermediate / root under parents of every kind (string-keyed and other maps, interface- and pointer-wrapped, struct, slice, scalar), directly and through quantifier value aliases x 8 operators + any/all x unknown-value settings {none, int 0, int 1, \"\", \"a\", true, 1.5}; oracles: (a,b) reference interpreter (absent-key table, error cases); (c) two-run: Evaluate(e,d,unknown=v) == Evaluate(e,d+) where d+ is d with v inserted at the absent path (when the absent step is under a map[string]interface{}); (d) when the reference sees no absent key/field, the outcome is identical with and without an unknown value. Distinct by construction; non-trivial = the reference met an absent key/field (NOTFOUND) in the case.",
+		Rule: "E1 bounded product over configurations: selector paths of depth 1-4 with the missing step at leaf / intermediate / root under parents of every kind (string-keyed and other maps, interface- and pointer-wrapped, struct, slice, scalar), directly and through quantifier value aliases x 8 operators + any/all x unknown-value settings {none, int 0, int 1, \"\", \"a\", true, 1.5} x hook {none, unwrap-wrapper (values behind a wrapper struct at parent and leaf positions)}; oracles: (a,b) reference interpreter (absent-key table, error cases); (c) two-run: Evaluate(e,d,unknown=v) == Evaluate(e,d+) where d+ is d with v inserted at the absent path (when the absent step is under a map[string]interface{}); (d) when the reference sees no absent key/field, the outcome is identical with and without an unknown value. Distinct by construction; non-trivial = the reference met an absent key/field (NOTFOUND) in the case.",
 		Assumptions: []string{"reference interpreter as in C01", "unknown values drawn from scalar kinds (non-scalar unknown values are outside the universe)"},
 		Run:         runC05,
 	})
@@ -42,6 +42,10 @@ func c05Docs(thorough bool) []*Node {
 		if thorough {
 			out = append(out, NPtr(mp(str("a"), m)), mp(str("a"), m, str("c"), str("a")))
 		}
+	}
+	// values behind the wrapper struct the unwrap hook recognises (only meaningful under that hook)
+	for _, in := range inner {
+		out = append(out, mp(str("a"), NWrapper(in)), mp(str("a"), mp(str("a"), NWrapper(in))), mp(str("a"), NSlice(TAny, NWrapper(in))))
 	}
 	out = append(out, mp(), mp(str("c"), one))
 	return out
@@ -184,11 +188,19 @@ func runC05(c *eng.Ctx) {
 		}
 		src := Render(e)
 		m, isMatch := e.(*Match)
-		for ui, u := range unknowns {
-			if !c.Want("u", ui) && ui != 0 {
+		for ui := 0; ui < 2*len(unknowns); ui++ {
+			u := unknowns[ui%len(unknowns)]
+			hook := HookNone
+			if ui >= len(unknowns) {
+				hook = HookUnwrap // second pass: the same unknown-value settings under the unwrap hook
+				if !c.Thorough() && ui%len(unknowns) > 2 {
+					continue
+				}
+			}
+			if !c.Want("u", ui) && ui%len(unknowns) != 0 {
 				continue
 			}
-			cfg := Cfg{Tag: "bexpr", Unknown: u}
+			cfg := Cfg{Tag: "bexpr", Unknown: u, Hook: hook}
 			ev, err := bexpr.CreateEvaluator(src, optsFor(cfg)...)
 			if err != nil {
 				c.Violate(eng.Violation{Kind: "harness-expression-rejected", Key: "create: " + src, Detail: err.Error()})
@@ -196,7 +208,7 @@ func runC05(c *eng.Ctx) {
 			}
 			var plain *bexpr.Evaluator
 			if u != nil {
-				plain, _ = bexpr.CreateEvaluator(src)
+				plain, _ = bexpr.CreateEvaluator(src, optsFor(Cfg{Tag: "bexpr", Hook: hook})...)
 			}
 			for di, d := range ds {
 				if !c.Want("d", di) {
@@ -209,7 +221,7 @@ func runC05(c *eng.Ctx) {
 				c.R.Traces++
 				c.R.States++
 				co := map[string]int{"e": ei, "u": ui, "d": di}
-				if ui == 0 {
+				if u == nil {
 					base[di] = got
 				}
 				if rf.NotFound > 0 {
